@@ -129,8 +129,20 @@ func (m *c07Mon) Step(w *sessmc.World, e *sessmc.Event, obs []sessmc.Obs) (rule,
 		}
 	}
 
+	// what the store really returns is what was saved (the file store reopens its files on restart and refresh)
+	if !cfg.NoPersist {
+		if act := w.StoredActual(); act != M1 {
+			return "C07/R1-store-content-differs-from-saved event=" + evClass(e, inType), fmt.Sprintf("after %s the store returns %q for 1..%d, saved were %q", e.Name, act, S1-1, M1)
+		}
+	}
+
 	// ---- (ii) outcomes
 	switch {
+	case e.K == "clock-tick":
+		// a tick of the clock that crosses no configured time changes nothing
+		if S1 != S0 || T1 != T0 || M1 != M0 || resets > 0 || ourLogon != nil {
+			return "C07/R5-tick-without-crossing-acted", fmt.Sprintf("a clock tick that crossed no reset time changed %d/%d %q → %d/%d %q (Logon sent: %v)", S0, T0, M0, S1, T1, M1, ourLogon != nil)
+		}
 	case e.K == "reset-time":
 		if !conn0 {
 			if S1 != S0 || T1 != T0 || M1 != M0 {
@@ -342,7 +354,7 @@ func evClass(e *sessmc.Event, inType string) string {
 func c07AlphabetFor(cfg sessmc.Config) []*sessmc.Event {
 	a := c07Alphabet(cfg.FileDir != "")
 	if cfg.ResetSeqTime {
-		a = append(a, sessmc.EvResetTime())
+		a = append(a, sessmc.EvResetTime(), sessmc.EvClockTick())
 	}
 	return a
 }
@@ -464,6 +476,9 @@ func runC07(c *core.Ctx) {
 	for _, cfg := range cfgs {
 		sp := variantDefs["C07/lifecycle"](cfg)
 		sp.depth, sp.conform = depth, 6
+		if cfg.ResetSeqTime {
+			sp.depth = depth + 1 // a tick while connected, an outage across the reset time, a reconnect and the next tick
+		}
 		runSearch(c, sp)
 		if cfg.InitS == 5 && (!c.Quick() || cfg.BeginString == "FIX.4.2") {
 			sp2 := variantDefs["C07/seqreset"](cfg)
@@ -478,9 +493,9 @@ func runC07(c *core.Ctx) {
 	dir, cleanup := core.Scratch("c07")
 	defer cleanup()
 	for _, ini := range []bool{false, true} {
-		for _, flags := range []int{0, 1, 2, 4} {
+		for _, flags := range []int{0, 1, 2, 4, 8} {
 			cfg := sessmc.Config{Initiator: ini, BeginString: "FIX.4.2", FileDir: dir,
-				ResetOnLogon: flags&1 != 0, ResetOnLogout: flags&2 != 0, ResetOnDisconnect: flags&4 != 0}
+				ResetOnLogon: flags&1 != 0, ResetOnLogout: flags&2 != 0, ResetOnDisconnect: flags&4 != 0, RefreshOnLogon: flags&8 != 0}
 			sp := variantDefs["C07/lifecycle"](cfg)
 			sp.depth = depth - 1
 			if !c.Quick() {
